@@ -1026,8 +1026,10 @@ class ABCPropertyGraph(ABCPropertyGraphConstants):
         isl = ABCPropertyGraph.interface_sliver_from_graph_properties_dict(props)
 
         # find interfaces and attach
-        # (a sub-interface's only interface neighbour is its parent, which is not a child of it)
-        if isl.get_type() != InterfaceType.SubInterface and not isl.interface_info:
+        # children hang off an interface that belongs to a network service; a child's own interface neighbour
+        # is its parent, which is not a child of it (whatever the types of the two)
+        if not isl.interface_info and len(self.get_first_neighbor(node_id=node_id, rel=ABCPropertyGraph.REL_CONNECTS,
+                                                                  node_label=ABCPropertyGraph.CLASS_NetworkService)) > 0:
             ifs = self.get_first_neighbor(node_id=node_id, rel=ABCPropertyGraph.REL_CONNECTS,
                                           node_label=ABCPropertyGraph.CLASS_ConnectionPoint)
             if ifs is not None and len(ifs) > 0:
